@@ -59,6 +59,12 @@ class Backfilling(TMGRSchedulingComponent):
 
             # initialize custom data for the pilot
             for pid in pids:
+
+                if self._pilots[pid].get('info'):
+                    # the pilot was added before: keep its bookkeeping, tasks
+                    # assigned to it earlier may still be running
+                    continue
+
                 pilot = self._pilots[pid]['pilot']
                 cores = pilot['description']['cores']
                 hwm   = int(cores * _HWM / 100)
